@@ -51,6 +51,12 @@ def encodings(codes):
     if B:
         out.append(('merged', 'interface P %s\ninterface P %s\n' % (body(A), body(B)), 'P', '', E))
         out.append(('merged-after', 'interface P %s\n' % body(A), 'P', 'interface P %s\n' % body(B), E))
+        # the same method key declared at several source positions (overloads, intersection operands, parent and child)
+        if any(MEMBERS[c][3] == 'method' and not MEMBERS[c][2] for c in codes):
+            mk = [MEMBERS[c][0] for c in codes if MEMBERS[c][3] == 'method' and not MEMBERS[c][2]][0]
+            out.append(('method-overloads', 'interface P %s\ninterface Q {{ %s(x: number): string }}\n' % (body(codes), mk), 'P & Q', '', E))
+            out.append(('method-overload-inline', '', '%s & {{ %s(x: number, y: string): void }}' % (body(codes), mk), '', E))
+            out.append(('method-parent-child', 'interface Base {{ %s(): void }}\ninterface P extends Base %s\n' % (mk, body(codes)), 'P', '', E))
         # every declaration of a merged interface may have its own heritage clause
         out.append(('merged-extends-later', 'interface Base %s\ninterface P {{}}\ninterface P extends Base %s\n' % (body(A), body(B)), 'P', '', E))
         out.append(('merged-extends-both', 'interface B0 %s\ninterface B1 %s\ninterface P extends B0 {{}}\ninterface P extends B1 {{}}\n' % (body(A), body(B)), 'P', '', E))
